@@ -103,6 +103,23 @@ func execC10(seg []Ev) []Ev {
 		}
 		e["vars"] = vj
 		t := mustache.NewMustacheTemplate()
+		// C18: entries that are already in the default variables (some spelled in another letter case, some empty)
+		predef := []any{}
+		if pl := toList(in["predef"]); len(pl) > 0 {
+			m := map[string]string{}
+			for _, x := range pl {
+				xx := toList(x)
+				m[string(toRunes(xx[0]))] = string(toRunes(xx[1]))
+				predef = append(predef, []any{cps(string(toRunes(xx[0]))), cps(string(toRunes(xx[1])))})
+			}
+			t.SetDefaultVariables(m)
+		}
+		e["predef"] = predef
+		pk := []any{}
+		for _, x := range predef {
+			pk = append(pk, cps(strings.ToLower(string(toRunes(x.([]any)[0])))))
+		}
+		e["predefkeys"] = pk
 		var err error
 		var res string
 		e["code"], e["eval"], e["out"] = "", "none", []int{}
